@@ -154,6 +154,9 @@ def slice_cases(tier):
 
 
 def tool_cases(tier):
+    # unifier.main on several files that disagree on residue numbers: the majority numbering (beyond 9999) is imposed on the third file, then every file is fitted
+    for resmode in ("10000", "12345", "small"):
+        yield dict(tool="unifier", multi=resmode, fmt="mmCIF")
     yield dict(tool="splitter", composite=["many", "model", False], fmt="mmCIF")
     for offence in ("chain", "resseq", "serial"):
         yield dict(tool="splitter", composite=[offence, "model", False], fmt="mmCIF")
@@ -254,6 +257,11 @@ def run_case(case):
     from mc.props.c09 import df_view
 
     nA = None
+    if case.get("multi"):
+        from rnapolis import parser_v2 as _p2
+        from mc.props.c09 import df_view as _dv
+
+        return run_unifier_multi(case, _p2, _dv)
     if "big" in case:
         t = big_table(case["big"])
     elif "composite" in case:
@@ -521,3 +529,66 @@ def run_tool(case, t, parser_v2, df_view):
     for v in out:
         u.setdefault(v["signature"], v)
     return dict(nontrivial="renaming" in outcomes or any(o.startswith("refusal") for o in outcomes), outcome="%s:%s" % (tool, "+".join(outcomes)), violations=list(u.values()))
+
+
+def run_unifier_multi(case, parser_v2, df_view):
+    """Three files with the same two-chain, four-residue content; two number their residues per case['multi'] (beyond 9999 unless 'small'), the third
+    from 1. unifier.main -f PDB imposes the majority numbering on the third and writes all three: each output must be a layout-clean PDB file that is
+    its own input up to a one-to-one, grouping-preserving renaming (or be refused with a message when no fit exists - none is infeasible here)."""
+    import contextlib
+    import io
+    import os
+    import shutil
+    import sys
+
+    from rnapolis import unifier
+
+    from mc.engine import scratch_dir
+    from mc.props.c09 import _layout_kind, norm_view
+
+    out = []
+    sd = scratch_dir()
+    od = os.path.join(sd, "uni_out")
+    shutil.rmtree(od, ignore_errors=True)
+    tables, paths = [], []
+    for k, mode in enumerate((case["multi"], case["multi"], "small")):
+        t = make_table(2, 1, mode, 1, False, 1, 2)
+        for a in t:
+            a["x"] = "%.3f" % (float(a["x"]) + 40.0 * k)
+        p = os.path.join(sd, "uni_in%d.cif" % k)
+        with open(p, "w") as f:
+            f.write(enumio.emit_cif(t))
+        tables.append(t)
+        paths.append(p)
+    old = sys.argv
+    sys.argv = ["unifier", "-o", od, "-f", "PDB"] + paths
+    err = io.StringIO()
+    try:
+        with contextlib.redirect_stdout(io.StringIO()), contextlib.redirect_stderr(err):
+            r = observe(unifier.main)
+    finally:
+        sys.argv = old
+    if r[0] == "exc" and not r[1].startswith("exception:SystemExit"):
+        return dict(nontrivial=True, outcome="unifier-multi:raises", violations=[viol("unifier-multi:" + r[1], "unifier.main on three files raised " + r[2])])
+    for k, t in enumerate(tables):
+        path = os.path.join(od, "uni_in%d.pdb" % k)
+        if not os.path.exists(path):
+            out.append(viol("unifier-multi:missing-file", "no output for input file %d although a fit exists; stderr: %s" % (k, err.getvalue()[:300])))
+            continue
+        txt = open(path).read()
+        atoms, problems, events = enumio.read_pdb_layout(txt)
+        problems += enumio.check_pdb_structure(events)
+        if problems:
+            out.append(viol("unifier-multi:layout:" + _layout_kind(problems[0]), "unifier PDB output for file %d: %s" % (k, "; ".join(problems[:3]))))
+            continue
+        rb = observe(parser_v2.parse_pdb_atoms, txt)
+        if rb[0] == "exc":
+            out.append(viol("unifier-multi:read-back:" + rb[1], "reading the output for file %d raised %s" % (k, rb[2])))
+            continue
+        got = [g[:15] + (1,) for g in norm_view(df_view(rb[1]))]
+        want = [w[:15] + (1,) for w in norm_view(enumio.table_view(t))]
+        check_renamed(want, got, out, "unifier-multi:out", ordered=False)
+    u = {}
+    for v in out:
+        u.setdefault(v["signature"], v)
+    return dict(nontrivial=True, outcome="unifier-multi:" + case["multi"], violations=list(u.values()))
